@@ -61,6 +61,7 @@ LOSSES = [[("lose", 0, "done")], [("lose", 0, "lost")], [("disconnect", 0)],
 @register
 class P04(SessionPlan):
     prop = "C04"
+    stalls = False      # this check judges exact deadlines
     monitor = staticmethod(conn.c04)
     rule = ("histories = seeded random walks over all profiles/transports plus the exhaustive handshake matrix "
             "(3 profiles x 256 CONNACK return codes x session-present x keepalive 0/7 x 3.1/3.1.1 x 2 transport models) "
@@ -205,7 +206,7 @@ class P08(SessionPlan):
     monitor = staticmethod(timing.c08)
     flavours = ("timers", "timers", "pubflow", "mixed")
     rule = ("histories = seeded walks (timer-heavy) plus the retransmission matrix: 4 packet kinds x protocol 3.1/3.1.1 x initial timeout "
-            "{1,2,4,7,60,1024} x bandwidth {1,100,1e4,1e6} x factor {1,1.5,2,3} x payload sizes x k<=12 consecutive expiries x 3 jitter policies; "
+            "{1,2,4,7,60,1024} x bandwidth {1,100,1e4,1e6} x factor {1,1.5,2,3} x payload sizes x k<=12 consecutive expiries x 3 jitter policies, plus 40 (thorough 120) consecutive expiries of one packet of each kind; "
             "non-trivial = at least one transmission, expiry or gap was judged; distinct by (config, executed step list)")
 
     def required_counters(self, tier):
@@ -241,6 +242,25 @@ class P08(SessionPlan):
                             st.append(other[rng.randrange(len(other))])
                     prof = "pubsub"
                     yield C.SessionCase("retx-matrix/" + kind, Cfg(profile=prof, model="sync", jitter=jit, seed=seed + tout), steps=st)
+        # the timeout changed between publish() and the first PUBREL (setTimeout while in flight, or a rebuilt protocol)
+        for lvl in (3, 4):
+            for t1, t2 in ((1, 60), (1, 9), (30, 2), (2, 1024)):
+                head = [("build", 0), ("setwin", 0, 4), ("settimeout", 0, t1), ("connect", 0, False, 0, lvl), ("connack", 0, 0, False), ("pub", 0, 2, False, 5)]
+                yield C.SessionCase("retx-timeout-change", Cfg(profile="pubsub", jitter="const"),
+                                    steps=head + [("settimeout", 0, t2), ("ack", 0, "PUBREC", "old")] + [("tick",)] * 5)
+                yield C.SessionCase("retx-timeout-change", Cfg(profile="pubsub", jitter="const"),
+                                    steps=head + [("lose", 0, "lost"), ("build", 0), ("settimeout", 0, t2), ("connect", 0, False, 0, lvl),
+                                                  ("connack", 0, 0, True), ("ack", 0, "PUBREC", "old")] + [("tick",)] * 5)
+        # "for as long as it stays unacknowledged": 40 [120] consecutive expiries of one packet of each kind, then the acknowledgement
+        n = 40 if tier == "quick" else 120
+        for lvl in (3, 4):
+            for model in MODELS:
+                pre = [("build", 0), ("setwin", 0, 4), ("settimeout", 0, 1), ("setbw", 0, 100000, 1), ("connect", 0, True, 0, lvl), ("connack", 0, 0, False)]
+                for first, acks in (([("pub", 0, 1, False, 40)], ["PUBACK"]), ([("pub", 0, 2, False, 40)], ["PUBREC", "PUBCOMP"]),
+                                    ([("pub", 0, 2), ("ack", 0, "PUBREC", "old")], ["PUBCOMP"]),
+                                    ([("sub", 0, "str", 1, 1)], ["SUBACK"]), ([("unsub", 0, "str", 1)], ["UNSUBACK"])):
+                    yield C.SessionCase("long-retry", Cfg(profile="pubsub", model=model, jitter="uniform", seed=seed),
+                                        steps=pre + first + [("tick",)] * n + [("ack", 0, a, "old") for a in acks] + [("pub", 0, 1)])
 
 
 # ------------------------------------------------------------------------------ C09
@@ -455,6 +475,7 @@ class P14(SessionPlan):
 @register
 class P15(SessionPlan):
     prop = "C15"
+    stalls = False      # this check judges exact deadlines
     monitor = staticmethod(conn.c15)
     flavours = ("timers", "timers", "mixed")
     rule = ("histories = keepalive matrix: k in {1,2,5,60,600,65535} x PINGRESP offsets {eps, k/2, k-eps, exactly k, k+eps, never, twice, unsolicited} "
@@ -505,6 +526,13 @@ class P15(SessionPlan):
                                                ("connack", 0, 0, False), ("adv", (k2 or k1) * 1.5), ("pingresp", 0), ("adv", (k2 or k1) * 2.5)])
             yield C.SessionCase("keepalive-matrix/k0", cfg, steps=[("build", 0), ("connect", 0, True, 0, 4), ("connack", 0, 0, False),
                                                                    ("adv", 1000), ("pub", 0, 1), ("adv", 100000)])
+            for extra in ({"willTopic": "w", "willMessage": "m"}, {"username": "u", "password": "p"},
+                          {"willTopic": "w", "willMessage": "", "willQoS": 1, "willRetain": True, "username": "u"}):
+                yield C.SessionCase("keepalive-matrix/k0-options", cfg, steps=[("build", 0), ("connect", 0, True, 0, 4 if k % 2 else 3, extra),
+                                                                               ("connack", 0, 0, False), ("adv", 1000), ("pub", 0, 1), ("adv", 100000)])
+                if k < 1000:
+                    yield C.SessionCase("keepalive-matrix/k-options", cfg, steps=[("build", 0), ("connect", 0, True, k, 4, extra), ("connack", 0, 0, False),
+                                                                                  ("adv", k / 2.0), ("pingresp", 0), ("adv", k), ("pingresp", 0), ("adv", 3 * k)])
             yield C.SessionCase("keepalive-matrix/reconnect", cfg, steps=pre + [("adv", k * 2.5 if k < 1000 else 10), ("lose", 0, "lost"), ("adv", k * 3),
                                                                            ("build", 0), ("connect", 0, True, 0, 4), ("connack", 0, 0, False), ("adv", k * 3)])
 
